@@ -72,6 +72,11 @@ Wirings == {Geom(3, 2, "parallel", TRUE), Geom(3, 2, "parallel", FALSE), Geom(3,
 GSeq == {Geom(2, 2, "parallel", FALSE), Geom(3, 1, "parallel", FALSE), Geom(3, 2, "parallel", FALSE)}
 GSeqT == Small(4, 2)
 GSmallQ == {Geom(2, 2, "parallel", FALSE), Geom(3, 1, "i2c", FALSE)}
+\* the single-call runs are split so that the largest geometry gets a TLC process of its own
+GA1 == Small(3, 2) \cup {Geom(4, 1, "parallel", FALSE)}
+GA2 == {Geom(4, 2, "parallel", FALSE)}
+GA3 == {Geom(5, 1, "parallel", FALSE)}
+GA4 == {Geom(5, 2, "parallel", FALSE)}
 G12 == Small(2, 2)
 G13 == Small(3, 2)
 G14 == Small(4, 2)
